@@ -114,11 +114,16 @@ fn main() {
             }
         })
         .unwrap();
+    let wanted: std::cell::RefCell<Option<Vec<String>>> = std::cell::RefCell::new(None);
     let run = |src: &str, limit_ms: u64| {
         tx_in.send(src.to_string()).unwrap();
         match rx_out.recv_timeout(Duration::from_millis(limit_ms)) {
             Ok(None) => {}
-            Ok(Some((k, o))) => report(&k, src, &o),
+            Ok(Some((k, o))) => {
+                if wanted.borrow().as_ref().map_or(true, |w| w.iter().any(|x| *x == k)) {
+                    report(&k, src, &o)
+                }
+            }
             Err(_) => report("hang", src, &format!("no result after {} ms", limit_ms)),
         }
     };
@@ -133,6 +138,8 @@ fn main() {
             let k: usize = args[2].parse().unwrap();
             let budget = Duration::from_secs(args[3].parse().unwrap());
             let seed: usize = args.get(4).and_then(|s| s.parse().ok()).unwrap_or(0);
+            let kinds: Option<Vec<String>> = args.get(5).map(|s| s.split(',').map(|x| x.to_string()).collect());
+            *wanted.borrow_mut() = kinds;
             let t0 = std::time::Instant::now();
             let n = ALPHABET.len();
             let mut count: u64 = 0;
